@@ -302,6 +302,54 @@ Definition sdoc_prog (fuel : nat) (d : sdoc) : prog (list nat * option eres) :=
     | _ => Ret ([], None)
     end).
 
+(** a subscription through API.ServeGraphQLWS (graphqlws.go HandleStart; executor.go subscribe,
+    executeSubscriptionEvent): validate with the subscription type as root; subscribe — collect the
+    root selection set, exactly one root field, GetField with the connection's features, the resolver
+    is invoked once to obtain the source stream —; then every event of the stream executes the
+    whole selection set on the subscription type again (the root resolver hands the event on).
+    [events]: how many events the stream delivers before it ends.
+    Result: (error ids, None = refused by validation | Some None = out of fuel
+                       | Some (Some (log, data of each event))) *)
+Fixpoint repeat_exec (n : nat) (run1 : elog -> prog eres) (log : elog) (acc : list (option rval))
+  : prog (option (elog * list (option rval))) :=
+  match n with
+  | O => Ret (Some (log, acc))
+  | Datatypes.S k =>
+      bind (run1 log) (fun r =>
+        match r with
+        | None => Ret None
+        | Some (log', v) => repeat_exec k run1 log' (acc ++ [v])
+        end)
+  end.
+
+Definition ssub_prog (fuel events : nat) (d : sdoc)
+  : prog (list nat * option (option (elog * list (option rval)))) :=
+  Ask (QRoot RSubscription) (fun ar =>
+    match ar with
+    | AHandle (Some s) =>
+        bind (sdoc_val s d) (fun errs =>
+          if is_nil errs then
+            bind (collect (d_frags d) fuel s (d_sels d) ([], [])) (fun c =>
+              match c with
+              | None => Ret (errs, Some None)
+              | Some (_, [e]) =>
+                  match ce_field e with
+                  | Some f =>
+                      Ask (QField s f) (fun af =>
+                        match af with
+                        | AField (Some _) =>
+                            bind (repeat_exec events (sexec (d_frags d) fuel s (d_sels d)) [(s, f)] [])
+                                 (fun r => Ret (errs, Some r))
+                        | _ => Ret (errs, Some (Some ([], [])))   (* "Undefined root subscription field." *)
+                        end)
+                  | None => Ret (errs, Some (Some ([], [])))
+                  end
+              | Some _ => Ret (errs, Some (Some ([], [])))        (* not exactly one root field *)
+              end)
+          else Ret (errs, None))
+    | _ => Ret ([], None)
+    end).
+
 (** a fuel that is enough for every document whose fragments are acyclic: nesting costs one unit
     per level, and no nesting is deeper than the number of nodes of the document *)
 Fixpoint sel_size (s : sel) : nat :=
